@@ -13,7 +13,7 @@ run_one() {
   local base=$(basename "$f" .diff)
   local prop=${base%%-*}
   if [ -n "$filter" ] && ! echo " $filter " | grep -q " $prop "; then return; fi
-  if ! git -C /repo diff --quiet; then echo "repo working tree not clean"; exit 2; fi
+  if [ -n "$(git -C /repo status --porcelain)" ]; then echo "repo working tree not clean (commit contract files first)"; exit 2; fi
   if ! git -C /repo apply "$PWD/$f" 2>/tmp/selftest_apply.err; then echo "APPLY-FAIL $base: $(cat /tmp/selftest_apply.err)"; fail=1; return; fi
   # the mutant must still compile
   if ! (cd /repo && go build ./... 2>/tmp/selftest_build.err); then echo "BUILD-FAIL $base: $(head -3 /tmp/selftest_build.err)"; git -C /repo checkout -- .; fail=1; return; fi
